@@ -122,7 +122,7 @@ def bd_problem(rng):
             a = [[rng.randint(-2, 2) for _ in range(N)] for _ in range(N)]
             terms[",".join(map(str, o))] = [[a[i][j] + a[j][i] for j in range(N)] for i in range(N)]
     return dict(npar=npar, sizes=[n0, n1], E=E, terms=terms, hermitian=rng.random() < 0.6, zero_block=zero_block,
-                unsplit=rng.random() < 0.35)
+                unsplit=rng.random() < 0.35, solver1=rng.random() < 0.3)
 
 
 def in_cones(n, cones):
@@ -183,12 +183,23 @@ def bd_build(prob, log, forbid=None, scale_outside=None):
             return t
         return zero
 
-    if prob.get("unsplit"):
-        H = BlockSeries(eval=ev_full, shape=(), n_infinite=npar, name="H")
-        out = block_diagonalize(H, subspace_indices=[0] * n0 + [1] * n1, hermitian=prob["hermitian"])
-        return out, H
-    H = BlockSeries(eval=ev, shape=(2, 2), n_infinite=npar, name="H")
-    out = block_diagonalize(H, hermitian=prob["hermitian"])
+    import warnings
+    from pymablock.block_diagonalization import solve_sylvester_diagonal
+
+    kw = dict(hermitian=prob["hermitian"])
+    if prob.get("solver1") and prob["hermitian"]:
+        # third solver flavour: a user solver with the deprecated ONE-argument signature (wrapped by
+        # _preprocess_sylvester; two blocks, Hermitian only)
+        base = solve_sylvester_diagonal((E[sl[0]], E[sl[1]]))
+        kw["solve_sylvester"] = lambda Y: base(Y, (0, 1))
+    with warnings.catch_warnings():
+        warnings.simplefilter("ignore")
+        if prob.get("unsplit"):
+            H = BlockSeries(eval=ev_full, shape=(), n_infinite=npar, name="H")
+            out = block_diagonalize(H, subspace_indices=[0] * n0 + [1] * n1, **kw)
+            return out, H
+        H = BlockSeries(eval=ev, shape=(2, 2), n_infinite=npar, name="H")
+        out = block_diagonalize(H, **kw)
     return out, H
 
 
